@@ -205,7 +205,6 @@ pub enum L4 {
 
 #[derive(Clone, Debug)]
 pub struct SendRec {
-    pub tag: u32,
     pub status: St,
     pub class: Class,
     pub fragmented: bool,
@@ -319,6 +318,8 @@ pub struct World {
     pub delivered_count: u64,
     pub must_arrivals: u64,
     pub truncated_errors: u64,
+    /// class name -> count, turned into labels at the end of the case
+    pub classes: BTreeMap<&'static str, u64>,
 }
 
 fn rd16(b: &[u8], at: usize) -> Option<u16> {
@@ -380,6 +381,7 @@ impl World {
             delivered_count: 0,
             must_arrivals: 0,
             truncated_errors: 0,
+            classes: BTreeMap::new(),
         }
     }
 
@@ -811,9 +813,8 @@ impl World {
             if self.socks[k].sent[j].status == St::Queued {
                 self.socks[k].sent[j].status = St::Skipped;
                 if self.socks[k].sent[j].class == Class::Must {
-                    let key = if self.socks[k].sent[j].fragmented { "tx:fragmented-datagram-lost-or-corrupted" } else { "tx:datagram-lost-or-reordered" };
                     ctx.report(Fail::new(
-                        key,
+                        "tx:datagram-lost-or-reordered",
                         format!(
                             "socket {}: {} (resolvable, fits) was not transmitted before {} which was queued behind it",
                             k, self.socks[k].sent[j].desc, desc
@@ -990,6 +991,24 @@ impl World {
         if r.class == Class::Drop || r.class == Class::Oversize {
             ctx.label("tx:drop-class-datagram-transmitted");
         }
+        let cls = match (&r.l4, r.dst.is_v4()) {
+            (L4::Udp { .. }, true) => "wire:udp4",
+            (L4::Udp { .. }, false) => "wire:udp6",
+            (L4::Icmp(_), true) => "wire:icmp4",
+            (L4::Icmp(_), false) => "wire:icmp6",
+            (L4::Raw(_), true) => "wire:raw4",
+            (L4::Raw(_), false) => "wire:raw6",
+        };
+        *self.classes.entry(cls).or_insert(0) += 1;
+        if self.net.eth && !self.net.on_link(&r.dst) && !self.net.is_bcast4(&r.dst) && !r.dst.is_multicast() {
+            *self.classes.entry("wire:via-gateway").or_insert(0) += 1;
+        }
+        if self.net.is_bcast4(&r.dst) || r.dst.is_multicast() {
+            *self.classes.entry("wire:broadcast-or-multicast").or_insert(0) += 1;
+        }
+        if r.src.is_some() {
+            *self.classes.entry("wire:explicit-source-address").or_insert(0) += 1;
+        }
         self.socks[k].sent[i].status = St::Seen;
         self.datagrams_out += 1;
         self.progress += 1;
@@ -1060,8 +1079,6 @@ impl World {
                                 behind_starved = starved;
                                 let key = if starved {
                                     "tx:neighbour-discovery-starved-by-earlier-socket"
-                                } else if r.fragmented {
-                                    "tx:fragmented-datagram-lost-or-corrupted"
                                 } else {
                                     "tx:datagram-never-transmitted"
                                 };
@@ -1258,6 +1275,28 @@ impl World {
                     return Err(Fail::new(key, format!("socket {}: {} returned injected datagram #{}: {}", k, op, a.itag, msg)));
                 }
                 if destructive {
+                    let cls = match &a.what {
+                        RxWhat::Udp { dst, .. } => {
+                            if dst.is_multicast() || self.net.is_bcast4(dst) {
+                                "got:udp-broadcast-or-multicast"
+                            } else {
+                                "got:udp-unicast"
+                            }
+                        }
+                        RxWhat::Icmp { inner: None, .. } => "got:icmp-echo",
+                        RxWhat::Icmp { inner: Some(_), .. } => "got:icmp-error-for-udp-port",
+                        RxWhat::Raw { pkt } => {
+                            if pkt.dst().is_v4() {
+                                "got:raw4"
+                            } else {
+                                "got:raw6"
+                            }
+                        }
+                    };
+                    *self.classes.entry(cls).or_insert(0) += 1;
+                    if a.must {
+                        *self.classes.entry("got:known-stored-datagram").or_insert(0) += 1;
+                    }
                     self.socks[k].pending.pop_front();
                     self.socks[k].delivered.insert(a.itag);
                     self.delivered_count += 1;
